@@ -46,6 +46,10 @@ Pool == <<
                             <<DestructCall("selfdestruct", Payable(Var("heir")))>>)>>),
     Ct("TightAddr", <<StateVar("ta1", U256, <<>>, <<>>), StateVar("ta2", Ty("address", 0), <<>>, <<>>),
                       Fn("setTa", "public", <<Asg("ta1", Num("1")), Asg("ta2", MsgSender)>>)>>),
+    \* a loop without a condition, and a loop whose condition reads an array length, in different items
+    Ct("Forever", <<Fn("spin", "public", <<N("S.For", A0, <<<<>>, <<>>, <<>>, <<Block(<<N("S.Break", A0, <<>>)>>)>>>>)>>)>>),
+    Ct("LenLoop", <<StateVar("arr", N("E.ArraySubscript", A0, <<<<U256>>, <<>>>>), <<>>, <<>>),
+                    Fn("scan", "public", <<N("S.For", A0, <<<<>>, <<Bin("E.Less", Var("k9"), N("E.MemberAccess", [member |-> "length"], <<<<Var("arr")>>>>))>>, <<>>, <<Block(<<>>)>>>>)>>)>>),
     \* TYPES declared in one item and used in another (an enum at file level / inside a contract, a struct whose field
     \* is of that type by its bare name): what is reported for the user does not depend on whether the declaring item is there
     N("SUP.EnumDefinition", [name |-> "Mode", values |-> <<"Up", "Down">>], <<>>),
